@@ -426,3 +426,28 @@ def c15(tier, seed):
     run.bounds = dict(singles="scalars, one- and two-level constructions, specials", pairs="struct pairs")
     return finish(run, "model_checking", CONV_RULE, assumptions=["TLC's evaluation of the TLA+ operators is trusted",
                   "Go map iteration order is not controlled: mixed-type maps are rejected whichever entry comes first"])
+
+
+# ---------------------------------------------------------------------------- C20 SQL generation
+@prop("C20", "sql", "Trace_Sql", None)
+def c20(tier, seed):
+    run = Run("C20", tier, seed)
+    thorough = tier == "thorough"
+    base = 0
+    for mode, size in (("trees", 3 if thorough else 2), ("conds", 0)):
+        cases, n = run.generate("Gen_Sql", "Gen_Sql.cfg", mode=mode, size=size, idbase=base)
+        base += n
+        obs = run.replay("sql", cases=cases, name="sql_" + mode)
+        verdicts = run.validate("Trace_Sql", obs, cfg="TraceT.cfg", shard=20000)
+        run.triage("sql", "Trace_Sql", obs, verdicts, None, cfg="TraceT.cfg", key=lambda r: json.dumps(r.get("c"), sort_keys=True),
+                   nontrivial=lambda r: r["c"]["k"] == "group")
+    run.bounds = dict(trees="every criteria tree of depth <= %d over AND / OR / NOT with two leaf conditions" % (3 if thorough else 2),
+                      conds="every condition kind (= <> < <= > >= LIKE IN BETWEEN ISNULL) x operand pools (16 adversarial strings, "
+                            "9 numbers incl. >= 2^63, bools, times, bound and unbound names) at every leaf of 7 shapes")
+    return finish(run, "model_checking",
+                  "cases: TLC enumerates criteria trees (StructurePreserved and OneLiteralPerString are invariants of the specification's "
+                  "generation scheme + reference reader); each tree is built through ext.Cond / ext.CondGroup and compiled with "
+                  "ext.CompileToSql; TLC tokenises the produced text, reads it with standard SQL precedence and compares the flattened "
+                  "structure and every condition's tokens with the criteria tree. distinct = distinct trees; non-trivial = has a connective",
+                  assumptions=["string literals are read the MySQL-default way (backslash escapes); whether \\\\xNN escapes of control "
+                               "characters decode back to the operand is reported as a diagnostic, not a verdict"])
